@@ -256,6 +256,7 @@ func init() {
 			return
 		}
 		dts := run.Rule("DT-S", "ScMinimalVartime returns exactly 'little-endian value < L' on every consistent abstract input, false on any other length", 5000)
+		red := run.Rule("REDUCED", "every scalar operation documented to return a reduced value packs a value that is reduced by construction (Montgomery reduction, or sums/differences of reduced values and constants below L)", 12)
 		dt := run.Rule("DT-canonical", "SetCanonicalBytes accepts exactly len = 32 ∧ bit 255 clear ∧ IsCanonical", 3)
 		for _, id := range c.Configs() {
 			p := c.Prog(id)
@@ -264,6 +265,7 @@ func init() {
 			if s := checkScMinimal(dts, cfg); s != nil && id == c.Configs()[0] {
 				run.Sample(s)
 			}
+			checkReducedOutputs(red, cfg)
 			for _, s := range c05Specs() {
 				r := edt.Check(dt, cfg, s)
 				if id == c.Configs()[0] {
